@@ -564,7 +564,7 @@ impl<T: AsRef<[u8]>> UdpNhcPacket<T> {
                 let data = self.buffer.as_ref();
                 let idx = self.nhc_fields_start();
 
-                0xf000 + data[idx] as u16
+                0xf000 + data[idx + 2] as u16
             }
             0b10 => {
                 // The full 16 bits are carried in-line.
